@@ -61,3 +61,65 @@ func VH_C08_bootstrap() {
 	}
 	vReach("end")
 }
+
+//verif:check C08,C11 stubs=env,valuefile,abslog reach=voter-added,voter-refused,nonvoter-added,action-set,action-refused,end desc="the public Config builders a client uses to prepare a membership request: a voter can be added directly only to a configuration that was never adopted (bootstrap); in an adopted configuration a new node joins as a non-voter, with Promote pending iff asked; an existing id is never overwritten; SetAction stores an action only if it fits the node (no Promote for a voter, no Demote for a non-voter) and leaves voting rights alone; a refused call changes nothing" bounds="configurations of <= 3 nodes with symbolic flags/actions and symbolic index (bootstrapped or not); new node id 1..4; every action value"
+func VH_C08_config_builders() {
+	n := vChoice(4)
+	c := vMkConfigLoose("cfg", n, vU64("cfg.index"))
+	before := c.clone()
+	id := uint64(1 + vChoice(4))
+	_, existed := c.Nodes[id]
+	switch vChoice(3) {
+	case 0:
+		err := c.AddVoter(id, vAddr(int(id)))
+		if err == nil {
+			vReach("voter-added")
+			vAssert(before.Index == 0, "CB-voter-added-directly-only-before-bootstrap")
+			vAssert(!existed && c.Nodes[id].Voter && c.Nodes[id].Action == None && len(c.Nodes) == len(before.Nodes)+1, "CB-added-as-plain-voter")
+		} else {
+			vReach("voter-refused")
+			vAssert(before.Index != 0 || existed, "CB-refusal-has-a-reason")
+			vAssert(vSameMembership(c, before), "CB-refused-call-changes-nothing")
+		}
+	case 1:
+		promote := vBool("promote")
+		err := c.AddNonvoter(id, vAddr(int(id)), promote)
+		if err == nil {
+			vReach("nonvoter-added")
+			nd := c.Nodes[id]
+			vAssert(!existed && !nd.Voter, "CB-new-node-joins-as-non-voter")
+			vAssert(vImp(promote, nd.Action == Promote) && vImp(!promote, nd.Action == None), "CB-promote-pending-iff-asked")
+			vAssert(c.numVoters() == before.numVoters(), "CB-adding-a-non-voter-leaves-the-voters-alone")
+		} else {
+			vAssert(existed && vSameMembership(c, before), "CB-existing-id-never-overwritten")
+		}
+	case 2:
+		action := Action(vU8("action"))
+		vAssume(action <= ForceRemove)
+		err := c.SetAction(id, action)
+		if err == nil {
+			vReach("action-set")
+			nd := c.Nodes[id]
+			vAssert(existed && nd.Action == action && nd.Voter == before.Nodes[id].Voter, "CB-action-stored-voting-right-untouched")
+			vAssert(vNot(vAnd(action == Promote, nd.Voter)) && vNot(vAnd(action == Demote, !nd.Voter)), "CB-action-fits-the-node")
+			vAssert(c.numVoters() == before.numVoters(), "CB-setting-an-action-changes-no-vote")
+		} else {
+			vReach("action-refused")
+			vAssert(vSameMembership(c, before), "CB-refused-call-changes-nothing")
+		}
+	}
+	vReach("end")
+}
+
+// vMkConfigLoose: n nodes (ids 1..n) with symbolic voter flags and actions obeying Node.validate, any index.
+func vMkConfigLoose(name string, n int, index uint64) Config {
+	c := Config{Nodes: make(map[uint64]Node), Index: index, Term: 1}
+	for i := 1; i <= n; i++ {
+		nd := Node{ID: uint64(i), Addr: vAddr(i), Voter: vBool(name + ".voter" + string(rune('0'+i))), Action: Action(vU8(name + ".action" + string(rune('0'+i))))}
+		vAssume(nd.Action <= ForceRemove)
+		vAssume(vNot(vAnd(nd.Action == Promote, nd.Voter)))
+		vAssume(vNot(vAnd(nd.Action == Demote, !nd.Voter)))
+		c.Nodes[nd.ID] = nd
+	}
+	return c
+}
